@@ -86,6 +86,9 @@ type w9Get struct {
 	h        *requestHandler
 	qb       *queryBuilder
 	beginSeq uint64
+	cancel    context.CancelFunc // runs with cancellable callers: the caller's context
+	cancelSeq uint64             // the scheduler cancelled the caller's context (0: not)
+	cancelWas string             // what the request was doing then
 	initSeq  uint64 // first observation after the Get passed the request-start memory wait and looked its bucket up
 	endSeq   uint64
 	done     bool // written by the task goroutine
@@ -153,6 +156,7 @@ type w9World struct {
 	bbHits    int  // buckets the running pass has processed (written by the invalidator goroutine)
 	bbFocus   int  // 0: three chunks in each of two regions; 1: one chunk of the old region; 2: two chunks in each region
 	bbAftermath int // scheduler steps left in which requests ask for what the pass that was parked has invalidated
+	cancelMode bool
 	holdMode  bool // loaders may stop between taking a block (context alive) and reporting its bytes; the run starts under a small hard limit
 	freshLim  cache2Limits
 	overlap   bool // exploration aid W9_OVERLAP_INVALIDATIONS: do not serialise invalidation passes
@@ -584,6 +588,18 @@ func (w *w9World) judge(g *w9Get) {
 	if g.err == nil && g.play == 0 {
 		r.Extra["gets_judged_nonplay_ok"]++
 	}
+	if g.cancelSeq != 0 {
+		// a request whose caller went away may return the context's error or data (then judged as any
+		// other request's); everybody else must be served as if nothing had happened
+		switch {
+		case g.err == nil:
+			r.Probe("cancelled_request_returned_data")
+		case errors.Is(g.err, context.Canceled):
+			r.Probe("cancelled_request_returned_context_error")
+		default:
+			r.Probe("cancelled_request_returned_other_error")
+		}
+	}
 	if g.err != nil {
 		r.Event("get", "#%d returned error %v", g.id, g.err)
 		if !w.anyFailedLoad {
@@ -811,6 +827,37 @@ func (w *w9World) launchGet() {
 	play := []int{0, 0, 0, 0, 0, 1, 5}[c.Intn(7, "play")]
 	force := c.Intn(8, "force_load") == 7
 	w.startGet(q, sc, base, s0, ln, play, force)
+	if w.cancelMode && c.Intn(8, "cancelled_at_start") == 7 {
+		// the caller's context is cancelled before the request has looked anything up
+		w.cancelGet(w.gets[len(w.gets)-1])
+	}
+}
+
+// cancelGet cancels the caller's context of a request (cache2.Get's ctx). The cache's own loads run
+// under a context of their own; a request that waits for loads returns ctx.Err() and the loads, the
+// chunk updates and everybody who awaits them go on.
+func (w *w9World) cancelGet(g *w9Get) {
+	r := w.r
+	was := "waits for loads"
+	ld := w.loads[g.id]
+	switch {
+	case g.judged:
+		was = "has returned"
+	case g.initSeq == 0 && g.qb.cacheKey == "":
+		was = "has not looked its bucket up yet"
+	case ld != nil && !ld.finished:
+		was = "waits, its own load is running"
+	case ld != nil && ld.finished:
+		was = "waits, its own load has finished"
+	case ld == nil:
+		was = "waits for loads of others"
+	}
+	g.cancelSeq = r.Seq()
+	g.cancelWas = was
+	r.Sched("cancel", "caller")
+	r.Event("get", "#%d caller's context cancelled (request %s)", g.id, was)
+	r.Probe("caller_context_cancelled_request_" + strings.ReplaceAll(strings.ReplaceAll(was, " ", "_"), ",", ""))
+	g.cancel()
 }
 
 func (w *w9World) startGet(q int, sc w9StepCfg, base int64, s0, ln, play int, force bool) {
@@ -835,6 +882,10 @@ func (w *w9World) startGet(q int, sc w9StepCfg, base int64, s0, ln, play int, fo
 	r.Sched("get", fmt.Sprintf("client%d", w.outstanding()))
 	r.Event("get", "#%d begin q=%d step=%d slots [%d,%d) of %s region play=%d force=%v memwait=%v", g.id, q, sc.step, s0, s0+ln, map[bool]string{true: "old", false: "recent"}[base == sc.oldBase], play, force, blocked)
 	lod := data_model.LOD{Version: Version6, StepSec: g.step, FromSec: g.from, ToSec: g.to, Location: time.UTC}
+	ctx := context.Background()
+	if w.cancelMode {
+		ctx, g.cancel = context.WithCancel(ctx)
+	}
 	go func() {
 		defer func() {
 			if p := recover(); p != nil {
@@ -842,7 +893,7 @@ func (w *w9World) startGet(q int, sc w9StepCfg, base int64, s0, ln, play int, fo
 			}
 			g.done = true
 		}()
-		g.res, g.err = w.ch.Get(context.Background(), g.h, g.qb, lod, force)
+		g.res, g.err = w.ch.Get(ctx, g.h, g.qb, lod, force)
 	}()
 }
 
@@ -1141,7 +1192,10 @@ func w9Run(t *testing.T, r *verifsim.Run) {
 	start := time.Now()
 	defer func() { r.SimNanos = int64(time.Since(start)) }()
 	// ---- configuration (swarm)
-	clients := 3 + c.Intn(4, "clients")
+	cl := c.Intn(8, "clients")
+	clients := 3 + cl&3
+	w.cancelMode = cl&4 != 0 // callers' contexts are cancellable and the scheduler cancels some of them
+	r.Config["cancellable_callers"] = w.cancelMode
 	w.nQ = 1 + c.Intn(3, "queries")
 	chunkSize := []int{4, 2, 8}[c.Intn(3, "chunk_size")]
 	utc := []int64{0, 3 * 3600}[c.Intn(2, "utc_offset")]
@@ -1313,6 +1367,27 @@ func w9Run(t *testing.T, r *verifsim.Run) {
 			acts = append(acts, act{kind: "fail", ld: idle[c.Intn(len(idle), "fail_which")]})
 		}
 		acts = append(acts, act{kind: "sleep"})
+		var cancellable []*w9Get
+		if w.cancelMode {
+			// every request that has not returned, and the latest one that has (must be harmless)
+			var last *w9Get
+			for _, g := range w.gets {
+				if g.cancelSeq != 0 {
+					continue
+				}
+				if !g.judged {
+					cancellable = append(cancellable, g)
+				} else {
+					last = g
+				}
+			}
+			if last != nil {
+				cancellable = append(cancellable, last)
+			}
+			if len(cancellable) > 0 {
+				acts = append(acts, act{kind: "cancel"})
+			}
+		}
 		if useLimits && passParked {
 			acts = append(acts, act{kind: "squeeze"}, act{kind: "squeeze"})
 		} else if useLimits {
@@ -1355,6 +1430,8 @@ func w9Run(t *testing.T, r *verifsim.Run) {
 			w.launchGet()
 		case "invalidate":
 			w.launchInvalidate()
+		case "cancel":
+			w.cancelGet(cancellable[c.Intn(len(cancellable), "cancel_which")])
 		case "sleep":
 			ds := []time.Duration{time.Millisecond, 20 * time.Millisecond, time.Second, 16 * time.Second}
 			if mode == 2 {
